@@ -135,10 +135,16 @@ pub fn crate_task<P: 'static, R: 'static, F: FnOnce(P) -> R>(
             let result: &'static mut std::io::Result<R> = Box::leak(Box::new(
                 std::panic::catch_unwind(std::panic::AssertUnwindSafe(|| (data.0)(data.1)))
                     .map_err(|e| {
-                        Error::other(
-                            e.downcast_ref::<&'static str>()
-                                .map_or("task failed without message", |msg| *msg),
-                        )
+                        // panic!("..{}", x) carries a String, panic!("..") a &'static str
+                        Error::other(e.downcast_ref::<&'static str>().map_or_else(
+                            || {
+                                e.downcast_ref::<String>().map_or_else(
+                                    || String::from("task failed without message"),
+                                    Clone::clone,
+                                )
+                            },
+                            |msg| String::from(*msg),
+                        ))
                     }),
             ));
             std::ptr::from_mut(result).cast::<c_void>() as usize
